@@ -112,11 +112,11 @@ def main():
         },
         "engines": [
             {"name": "sim", "path": "/verif/sim", "serves_properties": sorted(claimed),
-             "kind_free_text": "single-process deterministic simulator (own PRNG, own executor, transport seam, seeded market model, client scheduler, replay + shrinking)"},
+             "kind_free_text": "single-process deterministic simulator: one PRNG behind every choice, own executor inside a paused tokio clock (simulated time), transport seam with lazy / delayed / slow / lost requests and responses under a fault budget, seeded market model, client scheduler (uniform and PCT-style), thread scheduler over a mirrored copy of the server modules (baton passing at every lock operation, linearizability oracle), the shipped HTTP clients over a stand-in transport, replay files + ddmin shrinking + fresh-process replay verification"},
         ],
         "checks": checks,
         "not_applicable": sorted(na, key=lambda x: x["property_id"]),
-        "notes": "Exit 0 held / 1 VIOLATION line / 2 harness or build error. VERIF_SEED and VERIF_TIER are honoured. Known findings: /verif/known_findings.json.",
+        "notes": "Exit 0 held / 1 VIOLATION line / 2 harness or build error. VERIF_SEED and VERIF_TIER are honoured. Known findings: /verif/known_findings.json (all entries are `fixed`: eleven defects repaired by fix: commits in /repo, their minimised replays are re-executed first by the property's check). If a change to /repo makes the mirrored copy of rotala/src/http uncompilable, /verif/check rebuilds without the thread-level engines and the HTTP-client twins and prints a NOTE (loss of coverage, never an alarm). Seeded breaking changes and behaviour-preserving bundles used to test the checks: /verif/seeded (DESIGN.md 12.5, 12.8).",
     }
     json.dump(m, open("/verif/MANIFEST.json", "w"), indent=1)
     print("claimed", sorted(claimed), "n/a", [x["property_id"] for x in na])
